@@ -8,7 +8,17 @@ package packet
 // deliver each drop notification as an explicit step. Set it before any writer is used.
 var VerifReceive func(w *Writer, r *Reader, pck *Packet) func()
 
-func verifReceive(w *Writer, r *Reader, pck *Packet) func() {
+// VerifReceiveLink, when set, is called instead of VerifReceive and is also told the link
+// generation the response carries (the generation of the reader's link when the request was written).
+var VerifReceiveLink func(w *Writer, r *Reader, pck *Packet, link uint64) func()
+
+func verifReceive(w *Writer, r *Reader, pck *Packet, link uint64) func() {
+	if h := VerifReceiveLink; h != nil {
+		if after := h(w, r, pck, link); after != nil {
+			return after
+		}
+		return func() {}
+	}
 	if h := VerifReceive; h != nil {
 		if after := h(w, r, pck); after != nil {
 			return after
